@@ -61,6 +61,13 @@ class C14(Prop):
                                         f"({r_.get('failed')} operations failed)", cops, cgo, upto=i))
                         break
                     continue
+                if op.startswith("ps.lookups"):
+                    r_ = kv(g)
+                    if r_.get("bad", "0") != "0" or r_.get("failed", "0") != "0" or not g.startswith("ok"):
+                        out.append(viol(f"several controllers looked their intact stored entries up at their own pace: {r_.get('failed')} loads failed, "
+                                        f"{r_.get('bad')} returned something else than what was stored", cops, cgo, upto=i))
+                        break
+                    continue
                 if op.startswith("ps.initsparse"):
                     r_ = kv(g)
                     if r_.get("lost", "0") != "0" or r_.get("failed", "0") != "0" or not g.startswith("ok"):
